@@ -44,3 +44,6 @@ func VerifTransformWord(word []byte, id int) []byte {
 	n := transformWord(buf[:], word, id)
 	return append([]byte(nil), buf[:n]...)
 }
+
+// VerifStaticDict returns the static dictionary (RFC 7932 appendix A).
+func VerifStaticDict() []byte { return dictLUT }
